@@ -60,7 +60,10 @@ var errStuck = fmt.Errorf("wait timed out")
 
 // waitTicks is the bound of every wait, counted in slices of at most 20 ms of this process being scheduled: a frozen
 // box does not use the budget up.
-var waitTicks = 750 // ~15 s of running time
+var waitTicks = 500 // ~10 s of running time
+
+// maxStuck: a loop that is stuck costs a full wait; after this many stuck runs the remaining runs are not executed.
+var maxStuck = 3
 
 // waitFor blocks until cond() (evaluated under h.mu) holds.
 func (h *hub) waitFor(cond func() bool) error {
@@ -152,21 +155,31 @@ func countStacks(markers ...string) int {
 // parkedIn reports whether some goroutine running fn is parked in a select / channel receive of file (the loop is idle
 // in its own code, not blocked inside a neighbour and not running).
 func parkedIn(fn, file string) bool {
+	if os.Getenv("VERIF_DEBUG_STACKS") != "" {
+		for _, g := range goroutines() {
+			if strings.Contains(g, fn) {
+				fmt.Fprintln(os.Stderr, "STACK", g)
+			}
+		}
+	}
 	for _, g := range goroutines() {
-		if !strings.Contains(g, fn) {
+		if !strings.Contains(g, fn+"(") {
 			continue
 		}
 		head := strings.SplitN(g, "\n", 2)[0]
 		if !(strings.Contains(head, "[select") || strings.Contains(head, "[chan receive")) {
 			continue
 		}
-		// the frame right below the runtime frames must be in the loop's own file
+		// the first frame below the runtime frames must be the loop function itself, in the loop's own file
 		ls := strings.Split(g, "\n")
 		for i := 1; i+1 < len(ls); i += 2 {
 			if strings.HasPrefix(ls[i], "runtime.") {
 				continue
 			}
-			return strings.Contains(ls[i], fn) && strings.Contains(ls[i+1], file)
+			if strings.Contains(ls[i], fn+"(") && strings.Contains(ls[i+1], file) {
+				return true
+			}
+			break
 		}
 	}
 	return false
